@@ -61,7 +61,10 @@ def _run_execution(cfg, prefix, record=False):
         for jname in cfg["job"].split("+"):
             jm = {"name": jname, "job_start": len(ex.dev.log), "accepted_start": len(fw.accepted)}
             marks["jobs"].append(jm)
-            jm["started"] = p.startprint(gcoder.GCode(list(JOBS[jname])))
+            gc = gcoder.GCode(list(JOBS[jname]))
+            for extra in cfg.get("footer", ()):
+                gc.append(extra)                 # lines added to the job after it was built (a footer, a late command)
+            jm["started"] = p.startprint(gc)
             if cfg.get("poll"):
                 # the application polls the temperature with a priority command while the job is running
                 while p.printing and p.queueindex < cfg["poll"]:
@@ -115,7 +118,7 @@ def check_execution(cfg, ex, marks, leaked):
     for ji, jm in enumerate(jobs):
         last_job = ji == len(jobs) - 1
         end = jobs[ji + 1]["job_start"] if not last_job else len(dev.log)
-        want = expected_commands(JOBS[jm["name"]])
+        want = expected_commands(list(JOBS[jm["name"]]) + list(cfg.get("footer", ())))
         accepted = fw.accepted[jm["accepted_start"]: (jm.get("accepted_end") if jm.get("accepted_end") is not None else len(fw.accepted))]
         P += check_job(cfg, S, fw, dev, marks, jm["job_start"], end, want, accepted, complete_expected=("drained" in jm), tag=("" if ji == 0 else f":job{ji + 1}"))
     return P
@@ -158,6 +161,16 @@ def check_job(cfg, S, fw, dev, marks, start, end, want, accepted, complete_expec
         if 0 <= k < len(want) and body != want[k]:
             P.append(("wire:wrong-command-for-number", f"line {k} carries {body!r}, job line {k} is {want[k]!r}"))
         numbered.append((i, k))
+    # a resend request the host has *read* is honoured: line n is among the next three numbered transmissions (the sender may be
+    # one line ahead when the request arrives). Requests after which fewer than three numbered lines follow are left to the
+    # end-of-job clauses below.
+    rx_requests = [(i, int(re.findall(r"-?\d+", l)[0])) for i, (k, l) in enumerate(dev.log)
+                   if start <= i < end and k == "rx" and (l.lower().startswith("resend") or l.startswith("rs")) and re.findall(r"-?\d+", l)]
+    for i, n in rx_requests:
+        following = [k for (j, k) in numbered if j > i][:3]
+        if len(following) == 3 and n not in following and 0 <= n < len(want):
+            P.append(("wire:resend-request-not-honoured", f"the host read a request to resend line {n} (log position {i}); the next numbered transmissions are {following}"))
+            break
     # runs of consecutive numbers; a new run must start at a number requested by a delivered Resend
     prev = None
     for i, k in numbered:
@@ -179,7 +192,8 @@ def check_job(cfg, S, fw, dev, marks, start, end, want, accepted, complete_expec
         # thread, a different firmware dialect) is reported as a plain violation.
         last_numbered = max([i for i, k in numbered], default=-1)
         unserved = [n for (j, n) in delivered_requests if j > last_numbered and n >= len(accepted)]
-        extra_ok = "dialect=A" if (cfg["dialect"] == "A" and cfg["corrupt"]) else \
+        # dialect D (Repetier wording) also sends an ok behind its Resend line: the same mechanism as dialect A
+        extra_ok = "dialect=A" if (cfg["dialect"] in ("A", "D") and cfg["corrupt"]) else \
                    ("greeting=start" if cfg["greeting"] == "start" else "none")
         crashed = any(t.exc is not None for t in S.threads) or any(not str(e).startswith("Error") and "SchedAbort" not in str(e) for e in marks.get("errors", []))
         if unserved and extra_ok != "none" and not crashed:
@@ -275,6 +289,18 @@ def plan(tier):
                 items.append(({**base, "line_points": False}, 1, None))
                 if poll >= 4:
                     items.append(({**base, "line_points": True}, 1, None))
+        for dialect in ("A", "B"):
+            for corrupt in ((), (2,), (5,)):
+                base = {"job": "J4", "dialect": dialect, "greeting": None, "eager": False, "corrupt": corrupt, "footer": ["M104 S0 ; cool down", "G28 X0", "M84"]}
+                items.append(({**base, "line_points": True}, 0, None))
+        for corrupt in ((), (0,), (1,), (2,), (1, 2)):
+            base = {"job": "J3", "dialect": "D", "greeting": None, "eager": False, "corrupt": corrupt}
+            items.append(({**base, "line_points": True}, 0, None))
+            if len(corrupt) == 1:
+                items.append(({**base, "line_points": False}, 1, None))
+        for corrupt in ((0,), (1,), (3,)):
+            base = {"job": "J8", "dialect": "D", "greeting": None, "eager": False, "corrupt": corrupt}
+            items.append(({**base, "line_points": True}, 0, None))
         for dialect in ("A", "B"):
             for corrupt in ((), (1,)):
                 base = {"job": "J10", "dialect": dialect, "greeting": None, "eager": False, "corrupt": corrupt}
